@@ -28,11 +28,12 @@ ANCHORS = ['pycaption.dfxp.base:RegionCreator._collect_unique_regions',
 REQUIRE = {'dfxp_roundtrips': 100, 'webvtt_writes': 100, 'webvtt_roundtrips': 30, 'texts_compared': 500,
            'level_lang': 20, 'level_caption': 20, 'level_span': 20, 'level_node': 10,
            'webvtt_split_captions': 20, 'webvtt_settings_compared': 200, 'alignment_pairs_seen': 15,
-           'padding_with_start_ne_end': 20, 'webvtt_language_level_only': 10}
+           'padding_with_start_ne_end': 20, 'webvtt_language_level_only': 10,
+           'webvtt_roundtrips_with_reader_options': 20}
 
 
 def rand_pct_layout(rng, need_origin=False):
-    vals = [0, 5, 10, 12.5, 20, 25, 33.33, 40, 50]
+    vals = [0, 0.5, 0.25, 5, 10, 12.5, 20, 25, 33.33, 40, 50]
     lay = {'origin': None, 'extent': None, 'padding': None, 'alignment': None}
     if need_origin or rng.random() < 0.75:
         x, y = rng.choice(vals), rng.choice(vals)
@@ -48,7 +49,7 @@ def rand_pct_layout(rng, need_origin=False):
     elif rng.random() < 0.5:
         lay['extent'] = [[float(rng.choice(vals[1:])), '%'], [float(rng.choice(vals[1:])), '%']]
     if rng.random() < 0.5:
-        pv = [0, 1, 2.5, 3, 5, 7]
+        pv = [0, 0.5, 0.75, 1, 2.5, 3, 5, 7]
         lay['padding'] = [None if rng.random() < 0.15 else [float(rng.choice(pv)), '%'] for _ in range(4)]
         if all(p is None for p in lay['padding']):
             lay['padding'][0] = [1.0, '%']
@@ -98,7 +99,9 @@ def cases(ctx):
                                        'align:left\tposition:10%', 'line:20%  size:50%', 'position:5%\t line:1'])
                 cues.append({'start': t, 'end': t + 1500000, 'settings': settings, 'text': f'{tag}.{k} hello'})
                 t += 2000000
-            yield {'kind': 'vtt2vtt', 'cues': cues}
+            yield {'kind': 'vtt2vtt', 'cues': cues,
+                   'reader_kwargs': rng.choice([{}, {}, {'ignore_timing_errors': False}, {'ignore_timing_errors': True},
+                                                {'time_shift_milliseconds': 0}])}
 
 
 def _strip_styles(spec):
@@ -194,9 +197,12 @@ def check(case, ctx):
         for c in case['cues']:
             doc += '%s --> %s%s\n%s\n\n' % (_ts(c['start']), _ts(c['end']),
                                             (' ' + c['settings']) if c['settings'] else '', c['text'])
-        cs = pycaption.WebVTTReader().read(doc)
+        rk = case.get('reader_kwargs') or {}
+        cs = pycaption.WebVTTReader(**rk).read(doc)
         out = pycaption.WebVTTWriter().write(cs)
         ctx.count('webvtt_roundtrips')
+        if rk:
+            ctx.count('webvtt_roundtrips_with_reader_options')
         cues = parsers.parse_webvtt(out)
         fails = []
         if len(cues) != len(case['cues']):
